@@ -1019,6 +1019,10 @@ func RunJob(job *Job) *Explorer {
 				ex.SolverTime += s.Time
 				if s.Errors > 0 {
 					ex.Ended["solver-error"] += s.Errors
+					ex.EndMsgs["solver-error: "+s.kind+": "+s.LastError]++
+				}
+				if s.Recovered > 0 {
+					ex.Warnings[fmt.Sprintf("solver %s answered `(error` %d time(s) (%s): query counted unknown, process discarded and restarted with the full stack", s.kind, s.Recovered, s.LastError)] = true
 				}
 				ex.PerSolver[s.kind] += s.Queries
 			}
